@@ -65,8 +65,8 @@ case "${1:-}" in
           CODE=$?
           ;;
         C12)
-          # (every execution runs 32+ allowed-set configurations)
-          /verif/tools/fuzz_phase.sh "$ID" "${NFV_FUZZ_RUNS:-500000}" 16 fuzz_history
+          # (every execution runs 32+ allowed-set configurations: about 100 executions/s per worker)
+          /verif/tools/fuzz_phase.sh "$ID" "${NFV_FUZZ_RUNS:-100000}" 16 fuzz_history
           CODE=$?
           ;;
         C09|C10)
